@@ -133,6 +133,8 @@ Definition uri_sethdr_size (maxlen seglen : Z) : Z :=
   if seglen <? 13 then 1 else
   if seglen <? 269 then (if maxlen <? 2 then 0 else 2) else (if maxlen <? 3 then 0 else 3).
 
+Definition uri_OPT_MAX : Z := 65804.
+
 (* make_decoded_option: None = -1; Some (bytes of the option, *optionsize) *)
 Definition uri_make_opt (k : Z) (s : bytes) (length buflen : Z) : uri_res (option (bytes * Z)) :=
   if buflen =? 0 then UOk None else
@@ -140,6 +142,8 @@ Definition uri_make_opt (k : Z) (s : bytes) (length buflen : Z) : uri_res (optio
   match cs with
   | None => UOk None
   | Some seglen =>
+      (* an option header cannot carry a length above 269 + 65535 *)
+      if uri_OPT_MAX <? seglen then UOk None else
       let written := uri_sethdr_size buflen seglen in
       if written =? 0 then UOk None else
       if buflen - written <? seglen then UOk None else
